@@ -68,11 +68,22 @@ def renderType {M B : Type} (c : Codec M B) (d : Def M) : File B :=
 
 def tyId {M : Type} (d : Def M) : TyId := ⟨d.name, d.major, d.minor, false⟩
 
-/-- `Namespace.j2` for the package `ns`. -/
+/-- The alias assignments `Name_M = Name_M_m` of `Namespace.j2` (`newest_minor_version_aliases`). -/
+def aliasTable {M : Type} (here : List (Def M)) : List (String × String) :=
+  (aliases (here.map tyId)).map fun t => (aliasName t.name t.major, s!"{t.name}_{t.major}_{t.minor}")
+
+/-- `Namespace.j2` for the package `ns` (after `fix: a Python package alias no longer rebinds the name of a generated
+class`): an alias whose name is the `short_reference_name` of a type of the namespace is not emitted. -/
 def renderPackage {M B : Type} (defs : List (Def M)) (ns : List String) : File B :=
   let here := defs.filter (fun d => d.ns = ns)
   .package (here.map fun d => (modulePath d, shortRef d))
-    ((aliases (here.map tyId)).map fun t => (aliasName t.name t.major, s!"{t.name}_{t.major}_{t.minor}"))
+    ((aliasTable here).filter fun a => !(here.map shortRef).contains a.1)
+
+/-- `Namespace.j2` as shipped before the fix: every alias is assigned, also over an imported class
+(`Foo_1.2.0` next to `Foo.1.2`: `Foo_1_2 = Foo_1_2_0`). -/
+def renderPackageBeforeFix {M B : Type} (defs : List (Def M)) (ns : List String) : File B :=
+  let here := defs.filter (fun d => d.ns = ns)
+  .package (here.map fun d => (modulePath d, shortRef d)) (aliasTable here)
 
 /-- The output directory: what is stored under each path. -/
 abbrev FS (B : Type) := Path → Option (File B)
